@@ -88,7 +88,7 @@ class Harness(object):
         return ctxs
 
     def discharge(self, ob, path_index=0):
-        r = smt.prove(ob.hyps, ob.goal, both=self.both)
+        r = smt.prove(ob.hyps, ob.goal, both=self.both, cvc5_first=(getattr(ob, 'solver', None) == 'cvc5'))
         model = None
         if r.status == 'sat' and r.model is not None:
             model = model_summary(r.model)
